@@ -21,7 +21,7 @@ struct Profile {
   // history op weights
   int w_build = 10, w_edit = 6, w_touch = 2, w_del_out = 3, w_change_cmd = 2, w_change_rsp = 1,
       w_manifest_edit = 0, w_regen = 1, w_del_log = 1, w_clean = 0, w_cleandead = 0, w_tool_ro = 0,
-      w_dry = 0, w_recompact = 0, w_restat_tool = 0, w_del_depfile = 1, w_edit_includes = 2, w_empty_source = 1, w_inflate_log = 1, w_include_churn = 2, w_block_dir = 0;
+      w_dry = 0, w_recompact = 0, w_restat_tool = 0, w_del_depfile = 1, w_edit_includes = 2, w_empty_source = 1, w_inflate_log = 1, w_include_churn = 2, w_block_dir = 0, w_missing_source = 0;
   int min_ops = 3, max_ops = 9;
   // fault kinds for builds (per mille of builds / commands)
   int pm_cmd_fail = 0;        // a command fails
@@ -146,6 +146,7 @@ struct World : SpawnHandler {
   Scenario pending;           // what a manifest regeneration will write
   bool has_pending = false;
   bool log_restated = false;   // a generator command replaced the build log during the current invocation
+  std::string missing_source;  // a source file removed for the next build (history macro)
   bool editor_ever = false;    // some earlier invocation of this history ran with the external editor
   std::map<std::string, int> version;
   std::map<std::string, int> inc_version;   // which hidden includes a source pulls in (no effect on what is computed)
